@@ -327,22 +327,24 @@ static void check_mscohere(int nfft, int wl, int wk, vh::Rng& r) {
     const int ov = int(r.below(wl));
     const int stride = wl - ov;
     const int N = wl + stride * int(r.range(4, 30));
-    const arr_real x = gauss_real(r, N);
-    const std::string base = vh::fmt("mscohere(x[%d], y, win=%s[%d], noverlap=%d, nfft=%d)", N, WKN[wk], wl, ov, nfft);
+    //coherence is a ratio: it must not depend on the absolute level of the records (levels over 240 dB)
+    const double level = std::pow(10.0, r.uni(-6.0, 6.0));
+    const arr_real x = gauss_real(r, N, level);
+    const std::string base = vh::fmt("mscohere(x[%d] at level %.2e, y, win=%s[%d], noverlap=%d, nfft=%d)", N, level, WKN[wk], wl, ov, nfft);
     for (int kind = 0; kind < 3; ++kind) {
         arr_real y(N);
         const char* kn = kind == 0 ? "scaled copy" : (kind == 1 ? "filtered copy + noise" : "independent noise");
         if (kind == 0) {
-            const double a = r.logmag(1e-3, 1e3);
+            const double a = r.logmag(1e-6, 1e6);
             for (int i = 0; i < N; ++i) {
                 y[i] = a * x[i];
             }
         } else if (kind == 1) {
             for (int i = 0; i < N; ++i) {
-                y[i] = 0.8 * x[i] - 0.5 * (i > 0 ? x[i - 1] : 0) + 0.2 * (i > 2 ? x[i - 3] : 0) + 0.3 * r.gauss();
+                y[i] = 0.8 * x[i] - 0.5 * (i > 0 ? x[i - 1] : 0) + 0.2 * (i > 2 ? x[i - 3] : 0) + 0.3 * level * r.gauss();
             }
         } else {
-            y = gauss_real(r, N);
+            y = gauss_real(r, N, level * std::pow(10.0, r.uni(-3.0, 3.0)));
         }
         vh::begin_case("mscohere", "%s y=%s", base.c_str(), kn);
         arr_real c;
